@@ -20,7 +20,7 @@ TIME_BUDGET = {"quick": 300, "thorough": 1800}
 FLOORS = {"quick": {"signatures_checked": 500, "pubkey_offers": 100, "connects": 2000, "distinct": 800, "rechallenges_after_pubkey": 50}, "thorough": {"signatures_checked": 5000, "connects": 8000}}
 EXHAUSTIVE = {"quick": False, "thorough": True}
 
-MAXDATAS = [4096, 8192, 65536, 1024 * 1024, 5000]
+MAXDATAS = [4096, 8192, 65536, 1024 * 1024, 5000, 2 * 1024 * 1024, 0xFFFFFFFF]     # (whatever the device announces is adopted, also above the host's own 1 MiB)
 STRAYS = [[], [("OKAY", 5, 6, b"")], [("CLSE", 9, 1, b""), ("WRTE", 9, 1, b"leftover")], [("WRTE", 1, 1, b"x" * 100), ("OKAY", 1, 1, b""), ("CLSE", 1, 1, b"")]]
 
 
@@ -229,6 +229,9 @@ def one_connect(sess, cfg, maxdata, strays, stats, rng, real_keys=None, kid_base
             want_chunk = min(65536, maxdata // 2) or 2048
             if sess.dev.max_chunk_size != want_chunk:
                 viol.append({"mechanism": "maxdata", "detail": "%s: device announced maxdata %d but max_chunk_size=%d" % (where, maxdata, sess.dev.max_chunk_size)})
+            adopted = getattr(sess.dev, "_maxdata", None)
+            if adopted is not None and adopted != maxdata:
+                viol.append({"mechanism": "maxdata", "detail": "%s: device announced maxdata %d, the device object holds %r" % (where, maxdata, adopted)})
     else:
         if out.ok:
             viol.append({"mechanism": "result", "detail": "%s: connect() returned %r although the device never sent CNXN (model: %s)" % (where, out.value, result)})
@@ -312,15 +315,15 @@ def run_case(case):
             stats["real_rsa_cases"] += 1
         v, out, result = one_connect(sess, case["first"], case["maxdata"], case["strays"], stats, rng, real_keys=real)
         viol += v
-        if result[0] == "ret" and out.ok and rng.random() < 0.3:
+        if result[0] == "ret" and out.ok and rng.random() < 0.3 and case["maxdata"] <= 2 * 1024 * 1024:      # (the library allocates a send buffer of maxdata bytes per transfer)
             # maxdata adoption is also visible in the WRTE sizes of a following push
-            size = min(3 * case["maxdata"], 400000)
+            size = min(3 * case["maxdata"], 400000) if case["maxdata"] <= 1024 * 1024 else 1500000
             o2 = sess.call("push", io.BytesIO(b"\xa5" * size), "/after-connect", mtime=3)
             stats["pushes_after_connect"] += 1
             mw = sess.monitor.max_wrte
             if not o2.ok:
                 viol.append({"mechanism": "push-after-connect", "detail": "push after a successful connect raised %s" % o2.brief(120)})
-            elif mw > case["maxdata"] or (size > case["maxdata"] and mw < min(case["maxdata"], 65536 * 2) // 2):
+            elif mw > case["maxdata"] or (size > case["maxdata"] and mw < min(case["maxdata"], 65536 * 2) // 2) or (case["maxdata"] > 1500000 + 70000 and mw < 1500000):
                 viol.append({"mechanism": "maxdata", "detail": "device maxdata %d, largest WRTE of a %d-byte push was %d" % (case["maxdata"], size, mw)})
         if case.get("second"):
             md2 = rng.choice(MAXDATAS)
